@@ -170,6 +170,11 @@ def _any(ty, v):
     return acc(v)
 
 
+def _cc(ty, v):
+    from .tyast import CountryCode, CountryCodeConverter
+    return acc(CountryCode(v)) if type(v) is str and v in CountryCodeConverter.countries else rej()
+
+
 def _sub(ty, v):
     cls = py_class(ty)
     base = ty.x['base']
@@ -552,7 +557,7 @@ _DISPATCH = {
     'int': _int, 'float': _float, 'complex': _complex, 'bool': _bool, 'str': _str, 'bytes': _bytes,
     'bytearray': _bytearray, 'none': _none, 'decimal': _decimal, 'fraction': _fraction,
     'date': _dt(datetime.date), 'time': _dt(datetime.time), 'datetime': _dt(datetime.datetime),
-    'path': _path, 'pattern': _pattern, 'any': _any, 'sub': _sub,
+    'path': _path, 'pattern': _pattern, 'any': _any, 'sub': _sub, 'cc': _cc,
     'list': _seqlike(list), 'seq': _seqlike(tuple), 'deque': _seqlike(collections.deque), 'set': _set,
     'tup': _tup, 'dict': _dict, 'counter': _counter, 'struct': _struct, 'union': _union, 'lit': _lit,
     'enum': _enum, 'cond': _cond, 'tagged': _tagged, 'dc': _dc, 'ndarray': _ndarray, 'vol': _vol,
